@@ -22,6 +22,8 @@ Oracle (from the property statement + my own parse of pl/state.dot; nothing is t
               state in {running, gitting} and transitioning == active
   C10.active  is_pipeline_active() is True only if state == 'running' and transitioning == active
   C10.active.rest  ... and only if no background step (load, reload, archive, introspection) is outstanding
+  C10.callers the guard the oracle assumes for the error path of a web submission is the guard in the code: the real
+              Process.failure (fe.submit, fe.api.submit) fires running_trigger from gitting and from no other state
 Every violation says whether its history can be produced by the real callers with their guards
 ('callers=guarded': starting_trigger at boot, gitting_trigger when active (fe submit step_1), running_trigger
 when gitting (step_3/failure), archiving_trigger when active and farm.ARCHIVE (farm.dispatch), update_trigger at
@@ -44,9 +46,10 @@ BOUND = (
     'configuration; plus every un-merged history of <= 3 events (thorough: <= 5 events, 2 deferred modes) and '
     'seeded un-merged random walks (quick 150 x <=25 events, thorough 3000 x <=40); every trigger call of these '
     'histories that raises MachineError - undocumented from the state, or documented but refused while a '
-    'transition is in progress - is compared field by field (including _FSM__prior) with the configuration before it'
+    'transition is in progress - is compared field by field (including _FSM__prior) with the configuration before it; '
+    'plus the guard of the real fe.submit / fe.api.submit Process.failure in each of the 8 states (C10.callers)'
 )
-CLAUSES = ['C10.edge', 'C10.reject', 'C10.reject.busy', 'C10.rest', 'C10.active', 'C10.active.rest']
+CLAUSES = ['C10.edge', 'C10.reject', 'C10.reject.busy', 'C10.rest', 'C10.active', 'C10.active.rest', 'C10.callers']
 
 MODES = [
     {'doctest': True, 'archive': 'sync', 'reopen': False},
@@ -454,6 +457,80 @@ def documentation_checks(coll):
         seen[k] = e['dest']
 
 
+class _RecordingFSM:
+    """stands for dawgie.context.fsm in the callers' guard check: remembers which triggers it was asked to fire"""
+
+    def __init__(self, state):
+        self.state = state
+        self.fired = []
+
+    def __getattr__(self, name):
+        if name.endswith('_trigger'):
+            return lambda *a, **k: self.fired.append(name)
+        raise AttributeError(name)
+
+
+class _FakeRequest:
+    def __init__(self):
+        self.written, self.finished = [], 0
+
+    def write(self, data):
+        self.written.append(data)
+
+    def finish(self):
+        self.finished += 1
+
+
+def caller_guard_checks(coll):
+    """the guards of the real callers that the oracle relies on when it labels a history `callers=guarded`: the error
+    path of a web submission (fe.submit / fe.api.submit Process.failure, the real functions) fires running_trigger when
+    the machine is in `gitting` and in no other state - it must never end a background step of another state by hand"""
+    import importlib
+    import os
+    import shutil
+    import tempfile
+
+    import dawgie.context
+    import dawgie.tools.submit
+
+    states = sorted({e[0] for e in STATEMENT} | {e[2] for e in STATEMENT})
+    tmp = tempfile.mkdtemp(prefix='verif_c10_repo_')
+    saved = (getattr(dawgie.context, 'fsm', None), dawgie.context.ae_base_path, dawgie.tools.submit.mail_out)
+    try:
+        os.makedirs(os.path.join(tmp, '.git'))
+        os.makedirs(os.path.join(tmp, 'ae'))
+        dawgie.context.ae_base_path = os.path.join(tmp, 'ae')
+        dawgie.tools.submit.mail_out = lambda *a, **k: None
+        for modname in ('dawgie.fe.submit', 'dawgie.fe.api.submit'):
+            mod = importlib.import_module(modname)
+            for state in states:
+                fsm = _RecordingFSM(state)
+                dawgie.context.fsm = fsm
+                try:
+                    proc = mod.Process('0' * 40, lambda: None, _FakeRequest(), 'submission')
+                    proc.failure(None)
+                    got = list(fsm.fired)
+                except Exception as e:  # pylint: disable=broad-except
+                    got = ['raised %r' % e]
+                want = ['running_trigger'] if state == 'gitting' else []
+                if got != want:
+                    coll.add(
+                        MODES[0],
+                        [],
+                        -1,
+                        (
+                            'C10.callers',
+                            f'caller-guard:{modname}.Process.failure:{state}',
+                            {'state': state, 'triggers_fired': got},
+                            'a failed submission fires running_trigger from gitting and nothing from any other state',
+                        ),
+                        True,
+                    )
+    finally:
+        dawgie.context.fsm, dawgie.context.ae_base_path, dawgie.tools.submit.mail_out = saved
+        shutil.rmtree(tmp, ignore_errors=True)
+
+
 def run(tier: str, seed: int) -> dict:
     t0 = time.time()
     thorough = tier == 'thorough'
@@ -463,6 +540,7 @@ def run(tier: str, seed: int) -> dict:
     stats = collections.Counter()
     samples = []
     documentation_checks(coll)
+    caller_guard_checks(coll)
     try:
         return _run(tier, seed, t0, thorough, deadline, n_triggers, coll, stats, samples)
     finally:
@@ -514,6 +592,7 @@ def replay(case: dict) -> dict:
     if not history:  # a finding about the diagram file itself
         coll = Collector()
         documentation_checks(coll)
+        caller_guard_checks(coll)
         hits = [v for v in coll.result() if v['signature'].split('|callers=')[0] == want[1]]
         return {
             'reproduced': bool(hits),
